@@ -33,7 +33,17 @@ def reconWalk [DecidableEq S] (lut : V × V → Option S) (line : V → V → S)
       else reconWalk lut line flat acc rest
     | none => reconWalk lut line flat (acc ++ [line s e]) rest
 
+/-- curve-preserving mode only: the contour is cyclic, so when the run of edges that ends it belongs to the same
+    original segment as the run that starts it, that segment is not repeated
+    (`if not flat and len(newpath) > 1 and newpath[-1] == newpath[0]: newpath.pop()`) -/
+def cyclicTrim [DecidableEq S] (flat : Bool) (l : List S) : List S :=
+  if flat = false ∧ 1 < l.length ∧ l.getLast? = l.head? then l.dropLast else l
+
 def recon [DecidableEq S] (lut : V × V → Option S) (line : V → V → S) (flat : Bool) (poly : List V) : List S :=
+  cyclicTrim flat (reconWalk lut line flat [] (wrapEdges poly))
+
+/-- the first repair alone (closing edge walked, no cyclic trim): repeats the first segment at the end -/
+def reconUntrimmed [DecidableEq S] (lut : V × V → Option S) (line : V → V → S) (flat : Bool) (poly : List V) : List S :=
   reconWalk lut line flat [] (wrapEdges poly)
 
 /-- the pinned code: no wrap-around -/
